@@ -297,7 +297,7 @@ theorem group_segments_grow (sidxOf : Item → Option Sidx) (items : List Item) 
 /-- **styp delimits**: every styp box opens a new segment (so the number of segments is at least the number of styp
     boxes seen, and a styp-opened segment starts exactly at the styp's position) -/
 theorem styp_opens_segment (st : St) (it : Item) (sidxOf : Item → Option Sidx) (hk : it.kind = .styp) :
-    ∃ st', addChild st it sidxOf = some st' ∧ st'.segs = st.segs ++ [{ startPos := it.pos, hasStyp := true }] := by
+    ∃ st', addChild st it sidxOf = some st' ∧ st'.segs = st.segs ++ [{ startPos := it.pos, hasStyp := true, stypSize := it.size }] := by
   simp [addChild, hk]
 
 /-- **default mode** (no sidx, no tfra, flag off): a moof opens a segment only when none exists yet -/
@@ -468,5 +468,299 @@ theorem sidx_moof_step (st : St) (it : Item) (sidxOf : Item → Option Sidx) (hk
   simp only [hne', if_false, Option.some.injEq] at h
   rw [← h, updLastSeg_length, updLastSeg_length, hst]
   split <;> simp
+
+/-! ### what UpdateSidx computes: the referenced sizes are the written sizes, a new index sits at the first segment -/
+
+/-- the segments lie one behind the other from byte `a` to byte `b`, each as long as `MediaSegment.Size()` says -/
+def Tiles : List Seg → Nat → Nat → Prop
+  | [], a, b => a = b
+  | s :: rest, a, b => s.startPos = a ∧ Tiles rest (a + s.size) b
+
+/-- the first box of the segment (`MediaSegment.FirstBox`) sits at the segment's first byte -/
+def FirstOK (s : Seg) : Prop :=
+  s.hasStyp = true ∨ ∃ f rest c crest, s.frags = f :: rest ∧ f.children = c :: crest ∧ c.pos = s.startPos
+
+/-- … or the segment was just opened at `pos` and waits for its first box -/
+def FirstOK' (pos : Nat) (s : Seg) : Prop := FirstOK s ∨ (s.frags = [] ∧ s.startPos = pos)
+
+/-- invariant of `File.AddChild` over a run of segment boxes that starts at byte `a` and has reached byte `b` -/
+def Inv (st : St) (a b : Nat) : Prop := Tiles st.segs a b ∧ ∀ s ∈ st.segs, FirstOK s
+
+/-- the boxes follow each other without gaps from byte `p` -/
+def Contig : List Item → Nat → Prop
+  | [], _ => True
+  | it :: rest, p => it.pos = p ∧ Contig rest (p + it.size)
+
+/-- the kinds of boxes `File.AddChild` puts into segments -/
+def segmentBox (k : Kind) : Bool := k == .styp || k == .emsg || k == .moof || k == .mdat
+
+theorem tiles_concat (init : List Seg) (s : Seg) (a b : Nat) :
+    Tiles (init ++ [s]) a b ↔ ∃ m, Tiles init a m ∧ s.startPos = m ∧ m + s.size = b := by
+  induction init generalizing a with
+  | nil =>
+    simp only [List.nil_append, Tiles]
+    constructor
+    · rintro ⟨h1, h2⟩; exact ⟨a, rfl, h1, h2⟩
+    · rintro ⟨m, h0, h1, h2⟩; subst h0; exact ⟨h1, h2⟩
+  | cons x rest ih =>
+    simp only [List.cons_append, Tiles, ih]
+    constructor
+    · rintro ⟨h1, m, h2⟩; exact ⟨m, ⟨h1, h2.1⟩, h2.2⟩
+    · rintro ⟨m, ⟨h1, h2⟩, h3⟩; exact ⟨h1, m, h2, h3⟩
+
+theorem updLastFrag_startPos (s : Seg) (h : Frag → Frag) : (updLastFrag s h).startPos = s.startPos := by
+  unfold updLastFrag; split <;> rfl
+theorem updLastFrag_hasStyp (s : Seg) (h : Frag → Frag) : (updLastFrag s h).hasStyp = s.hasStyp := by
+  unfold updLastFrag; split <;> rfl
+theorem updLastFrag_stypSize (s : Seg) (h : Frag → Frag) : (updLastFrag s h).stypSize = s.stypSize := by
+  unfold updLastFrag; split <;> rfl
+
+theorem size_updLastFrag (s : Seg) (h : Frag → Frag) (it : Item) (hh : ∀ x, (h x).children = x.children ++ [it])
+    (hne : s.frags ≠ []) : (updLastFrag s h).size = s.size + it.size := by
+  rcases segs_cases s.frags with h0 | ⟨init, x, h0⟩
+  · exact absurd h0 hne
+  · rw [updLastFrag_concat _ _ _ _ h0]
+    simp only [Seg.size, h0, List.map_append, List.map_cons, List.map_nil, List.sum_append, List.sum_cons,
+      List.sum_nil, Frag.size, hh]
+    omega
+
+/-- one box added to the last fragment of a segment, a fresh fragment possibly opened for it first -/
+theorem seg_step (s : Seg) (extra : List Frag) (pos : Nat) (it : Item) (h : Frag → Frag)
+    (he : extra = [] ∨ extra = [{ startPos := pos }]) (hne : s.frags ++ extra ≠ [])
+    (hh : ∀ x, (h x).children = x.children ++ [it]) (hp : it.pos = pos) :
+    (updLastFrag { s with frags := s.frags ++ extra } h).startPos = s.startPos ∧
+    (updLastFrag { s with frags := s.frags ++ extra } h).size = s.size + it.size ∧
+    (FirstOK' pos s → FirstOK (updLastFrag { s with frags := s.frags ++ extra } h)) := by
+  refine ⟨by rw [updLastFrag_startPos], ?_, ?_⟩
+  · rw [size_updLastFrag _ h it hh hne]
+    rcases he with he | he <;> subst he <;> simp [Seg.size, Frag.size]
+  · intro hf
+    rcases hf with (hs | ⟨f, rest, c, crest, h1, h2, h3⟩) | ⟨h1, h2⟩
+    · left; rw [updLastFrag_hasStyp]; exact hs
+    · right
+      rcases segs_cases (rest ++ extra) with h0 | ⟨init, x, h0⟩
+      · have hfr : ({ s with frags := s.frags ++ extra } : Seg).frags = [] ++ [f] := by
+          simp [h1, h0]
+        rw [updLastFrag_concat _ _ _ _ hfr]
+        exact ⟨h f, [], c, crest ++ [it], by simp, by simp [hh, h2], h3⟩
+      · have hfr : ({ s with frags := s.frags ++ extra } : Seg).frags = (f :: init) ++ [x] := by
+          simp [h1, h0]
+        rw [updLastFrag_concat _ _ _ _ hfr]
+        exact ⟨f, init ++ [h x], c, crest, by simp, h2, h3⟩
+    · right
+      have hex : extra = [{ startPos := pos }] := by
+        rcases he with he | he
+        · subst he; simp [h1] at hne
+        · exact he
+      have hfr : ({ s with frags := s.frags ++ extra } : Seg).frags = [] ++ [{ startPos := pos }] := by
+        simp [h1, hex]
+      rw [updLastFrag_concat _ _ _ _ hfr]
+      exact ⟨h { startPos := pos }, [], it, [], by simp, by simp [hh], by simp [hp, h2]⟩
+
+theorem ensureFrag_eq (pos : Nat) (s : Seg) :
+    ∃ extra, (extra = [] ∨ extra = [{ startPos := pos }]) ∧ s.frags ++ extra ≠ [] ∧
+      ensureFrag pos s = { s with frags := s.frags ++ extra } := by
+  unfold ensureFrag
+  by_cases h : s.frags = []
+  · exact ⟨[{ startPos := pos }], .inr rfl, by simp, by simp [h]⟩
+  · exact ⟨[], .inl rfl, by simpa using h, by simp [h]⟩
+
+theorem ensureMoofFrag_eq (pos : Nat) (s : Seg) :
+    ∃ extra, (extra = [] ∨ extra = [{ startPos := pos }]) ∧ s.frags ++ extra ≠ [] ∧
+      ensureMoofFrag pos s = { s with frags := s.frags ++ extra } := by
+  unfold ensureMoofFrag
+  split
+  · rename_i f hf
+    have hne : s.frags ≠ [] := by intro h0; simp [h0] at hf
+    split
+    · exact ⟨[{ startPos := pos }], .inr rfl, by simp, rfl⟩
+    · exact ⟨[], .inl rfl, by simpa using hne, by simp⟩
+  · rename_i hf
+    have h0 : s.frags = [] := by simpa using hf
+    exact ⟨[{ startPos := pos }], .inr rfl, by simp, by simp [h0]⟩
+
+theorem inv_step (st1 : St) (a pos : Nat) (it : Item) (g : Seg → Seg)
+    (ht : Tiles st1.segs a pos) (hne : st1.segs ≠ [])
+    (hfo : ∀ init s, st1.segs = init ++ [s] → (∀ x ∈ init, FirstOK x) ∧ FirstOK' pos s)
+    (hg : ∀ init s, st1.segs = init ++ [s] →
+      (g s).startPos = s.startPos ∧ (g s).size = s.size + it.size ∧ (FirstOK' pos s → FirstOK (g s))) :
+    Inv (updLastSeg st1 g) a (pos + it.size) := by
+  rcases segs_cases st1.segs with h0 | ⟨init, s, h0⟩
+  · exact absurd h0 hne
+  · obtain ⟨hi, hs⟩ := hfo init s h0
+    obtain ⟨g1, g2, g3⟩ := hg init s h0
+    rw [updLastSeg_concat _ _ _ _ h0]
+    rw [h0, tiles_concat] at ht
+    obtain ⟨m, t1, t2, t3⟩ := ht
+    refine ⟨(tiles_concat _ _ _ _).mpr ⟨m, t1, by rw [g1]; exact t2, by rw [g2]; omega⟩, ?_⟩
+    intro x hx
+    simp only [List.mem_append, List.mem_singleton] at hx
+    rcases hx with hx | hx
+    · exact hi x hx
+    · subst hx; exact g3 hs
+
+theorem inv_pre (st st1 : St) (a pos : Nat)
+    (h : st1 = st ∨ st1 = { st with segs := st.segs ++ [{ startPos := pos }] }) (hinv : Inv st a pos) :
+    Tiles st1.segs a pos ∧ ∀ init s, st1.segs = init ++ [s] → (∀ x ∈ init, FirstOK x) ∧ FirstOK' pos s := by
+  obtain ⟨ht, hf⟩ := hinv
+  rcases h with h | h
+  · subst h
+    refine ⟨ht, ?_⟩
+    intro init s hs
+    exact ⟨fun x hx => hf x (by simp [hs, hx]), .inl (hf s (by simp [hs]))⟩
+  · subst h
+    refine ⟨(tiles_concat _ _ _ _).mpr ⟨pos, ht, rfl, by simp [Seg.size]⟩, ?_⟩
+    intro init s hs
+    obtain ⟨e1, e2⟩ := List.append_inj' hs rfl
+    simp only [List.cons.injEq, and_true] at e2
+    subst e1 e2
+    exact ⟨hf, .inr ⟨rfl, rfl⟩⟩
+
+/-- one segment box handed to `File.AddChild` at the byte the run has reached keeps the invariant -/
+theorem addChild_inv (sidxOf : Item → Option Sidx) (it : Item) (st st' : St) (a : Nat)
+    (hk : segmentBox it.kind = true) (hinv : Inv st a it.pos) (h : addChild st it sidxOf = some st') :
+    Inv st' a (it.pos + it.size) := by
+  cases hkk : it.kind
+  case styp =>
+    simp only [addChild, hkk, Option.some.injEq] at h; subst h
+    refine ⟨(tiles_concat _ _ _ _).mpr ⟨it.pos, hinv.1, rfl, by simp [Seg.size]⟩, ?_⟩
+    intro x hx
+    simp only [List.mem_append, List.mem_singleton] at hx
+    rcases hx with hx | hx
+    · exact hinv.2 x hx
+    · subst hx; exact .inl rfl
+  case emsg =>
+    rw [addChild_emsg _ _ _ hkk] at h
+    obtain ⟨ht, hfo⟩ := inv_pre st _ a it.pos (startIfNeeded_cases st it.pos) hinv
+    split at h
+    · cases h
+    · rename_i hne
+      simp only [Option.some.injEq] at h; subst h
+      rw [updLastSeg_comp]
+      refine inv_step _ a it.pos it _ ht hne hfo ?_
+      intro _ s _
+      obtain ⟨extra, he, hne', heq⟩ := ensureFrag_eq it.pos s
+      simp only [addKid, heq]
+      exact seg_step s extra it.pos it _ he hne' (fun _ => rfl) rfl
+  case moof =>
+    rw [addChild_moof _ _ _ hkk] at h
+    have hc : (if isOpen st then st else startIfNeeded st it.pos) = st ∨
+        (if isOpen st then st else startIfNeeded st it.pos) = { st with segs := st.segs ++ [{ startPos := it.pos }] } := by
+      split
+      · exact .inl rfl
+      · exact startIfNeeded_cases st it.pos
+    obtain ⟨ht, hfo⟩ := inv_pre st _ a it.pos hc hinv
+    generalize (if isOpen st then st else startIfNeeded st it.pos) = st1 at h ht hfo
+    split at h
+    · cases h
+    · rename_i hne
+      simp only [Option.some.injEq] at h; subst h
+      rw [updLastSeg_comp]
+      refine inv_step _ a it.pos it _ ht hne hfo ?_
+      intro _ s _
+      obtain ⟨extra, he, hne', heq⟩ := ensureMoofFrag_eq it.pos s
+      simp only [setMoof, heq]
+      exact seg_step s extra it.pos it _ he hne' (fun _ => rfl) rfl
+  case mdat =>
+    rw [addChild_mdat _ _ _ hkk] at h
+    split at h
+    · cases h
+    · rename_i s0 hs0
+      split at h
+      · cases h
+      · rename_i hfr
+        simp only [Option.some.injEq] at h; subst h
+        have hne : st.segs ≠ [] := by intro h0; simp [h0] at hs0
+        obtain ⟨ht, hfo⟩ := inv_pre st st a it.pos (.inl rfl) hinv
+        refine inv_step _ a it.pos it _ ht hne hfo ?_
+        intro init s hs
+        have hs' : s = s0 := by simpa [hs] using hs0
+        subst hs'
+        have key := seg_step s [] it.pos it (fun f => { f with children := f.children ++ [it] }) (.inl rfl)
+          (by simpa using hfr) (fun _ => rfl) rfl
+        simpa [addKid] using key
+  all_goals simp [segmentBox, hkk] at hk
+
+/-- a gap-free run of segment boxes handed to `File.AddChild` box by box keeps the invariant -/
+theorem group_inv (sidxOf : Item → Option Sidx) (items : List Item) (st st' : St) (a p : Nat)
+    (hc : Contig items p) (hm : ∀ it ∈ items, segmentBox it.kind = true) (hinv : Inv st a p)
+    (h : groupItems st sidxOf items = some st') : Inv st' a (p + (items.map (·.size)).sum) := by
+  induction items generalizing st p with
+  | nil => simp only [groupItems, Option.some.injEq] at h; subst h; simpa using hinv
+  | cons it rest ih =>
+    simp only [groupItems] at h
+    split at h
+    · cases h
+    · rename_i st1 h1
+      obtain ⟨hp, hc'⟩ := hc
+      subst hp
+      have h2 := addChild_inv sidxOf it st st1 a (hm it (by simp)) hinv h1
+      have := ih st1 (it.pos + it.size) hc' (fun x hx => hm x (by simp [hx])) h2 h
+      simpa [Nat.add_assoc] using this
+
+/-- contiguous segments: reference `i` of an index anchored at `a` (offset = sum of the earlier referenced sizes)
+    starts at the first byte of segment `i`; all of them together end at `b` -/
+theorem tiles_refs (segs : List Seg) (a b : Nat) (ht : Tiles segs a b) :
+    (∀ i (hi : i < segs.length), a + refStart (segs.map Seg.size) i = (segs[i]).startPos) ∧
+    a + (segs.map Seg.size).sum = b := by
+  induction segs generalizing a with
+  | nil => simpa [Tiles] using ht
+  | cons s rest ih =>
+    obtain ⟨h1, h2⟩ := ht
+    obtain ⟨r1, r2⟩ := ih (a + s.size) h2
+    refine ⟨?_, by simp only [List.map_cons, List.sum_cons]; omega⟩
+    intro i hi
+    cases i with
+    | zero => simp [refStart, h1]
+    | succ j =>
+      have := r1 j (by simpa using hi)
+      simp only [List.getElem_cons_succ, ← this, refStart, List.map_cons, List.take_succ_cons, List.sum_cons]
+      omega
+
+theorem findIdx?_sound {α} (p : α → Bool) (l : List α) (i : Nat) (h : l.findIdx? p = some i) :
+    ∃ x, l[i]? = some x ∧ p x = true := by
+  induction l generalizing i with
+  | nil => simp at h
+  | cons y rest ih =>
+    rw [List.findIdx?_cons] at h
+    by_cases hy : p y = true
+    · simp only [hy, if_true, Option.some.injEq] at h; subst h; exact ⟨y, by simp, hy⟩
+    · simp only [hy] at h
+      cases hr : rest.findIdx? p with
+      | none => simp [hr] at h
+      | some j =>
+        simp [hr] at h; subst h
+        obtain ⟨x, hx, hpx⟩ := ih j hr
+        exact ⟨x, by simpa using hx, hpx⟩
+
+/-- the box in front of which `insertSidx` puts a new index is a box of the file sitting at the first byte of the
+    first segment -/
+theorem insertIdx_at_start (all : List Item) (st : St) (a b i : Nat) (hinv : Inv st a b)
+    (h : insertIdx all st = some i) : ∃ x, all[i]? = some x ∧ x.pos = a := by
+  unfold insertIdx at h
+  split at h
+  · cases h
+  · rename_i s rest hs
+    have hf : FirstOK s := hinv.2 s (by simp [hs])
+    have hsp : s.startPos = a := by have := hinv.1; rw [hs] at this; exact this.1
+    split at h
+    · cases h
+    · rename_i bx hb
+      have hbp : bx.pos = a := by
+        unfold Seg.firstBox at hb
+        by_cases hst : s.hasStyp = true
+        · simp only [hst, if_true, Option.some.injEq] at hb; subst hb; exact hsp
+        · rcases hf with hf | ⟨f, fr, c, cr, h1, h2, h3⟩
+          · exact absurd hf hst
+          · simp [hst, h1, h2] at hb
+            subst hb; rw [h3, hsp]
+      split at h
+      · rename_i j hj
+        simp only [Option.some.injEq] at h; subst h
+        obtain ⟨x, hx, hpx⟩ := findIdx?_sound _ _ _ hj
+        have : x = bx := by simpa using hpx
+        subst this
+        exact ⟨x, hx, hbp⟩
+      · cases h
 
 end Mp4ff.Segments
